@@ -3,7 +3,7 @@
    ordering flag, the parameters on record.  One call is one atomic operation here (its inside is
    Model/Core.v); a history is a `list hop`.  Every effect below is switched by a fact read off the
    current source text (Gen/GenStruct.v), so the theorems are about the code as it is now. *)
-From Coq Require Import List Arith Lia Bool String.
+From Coq Require Import List Arith Lia Bool String Ascii.
 From Mpv Require Import GenStruct GenParams OrderHist.
 Import ListNotations.
 Close Scope Z_scope.
@@ -37,6 +37,9 @@ Definition helper_chosen_per_chunk : bool := has "        func = self._get_func(
 (* the loop guard and the restart request read the CURRENT parameters of the worker *)
 Definition lifespan_read_from_current_params : bool :=
   has "  while self.map_params.worker_lifespan is None or n_tasks_executed < self.map_params.worker_lifespan:" worker_run_body.
+Fixpoint index_of' (x : string) (l : list string) : nat :=
+  match l with [] => 0 | y :: r => if String.eqb x y then 0 else S (index_of' x r) end.
+Fixpoint strip_sp (l : string) : string := match l with String " "%char r => strip_sp r | _ => l end.
 Definition ordered_calls_set_and_clear_flag : bool :=
   match map_body, imap_body with
   | m1 :: _, i1 :: _ => String.eqb m1 "self._worker_comms.signal_keep_order()" && String.eqb i1 "self._worker_comms.signal_keep_order()"
@@ -59,11 +62,20 @@ Definition start_workers_resets : bool :=
 (* apply_async touches the pool-side map parameters only when it has to start the workers: running workers (and the
    replacements the restart handler builds from the pool-side copy) keep the parameters of the last map call *)
 Definition apply_sets_params_only_when_starting : bool :=
+  follows "if not self._workers:" "  self.map_params = WorkerMapParams(func, worker_init, worker_exit, None, False, task_timeout, worker_init_timeout, worker_exit_timeout)" apply_async_body &&
+  follows "  self.map_params = WorkerMapParams(func, worker_init, worker_exit, None, False, task_timeout, worker_init_timeout, worker_exit_timeout)" "  self._start_workers()" apply_async_body &&
+  (* no other statement of apply_async assigns the pool-side parameters *)
+  (List.length (filter (fun l => String.eqb (substring 0 18 (strip_sp l)) "self.map_params = ") apply_async_body) =? 1)%nat.
+(* a failure that stops the workers while they serve apply tasks (worker_init / worker_exit raising or timing out) has no map
+   call around to clean up after it: the NEXT map call and the NEXT apply_async do, before they look at the workers *)
+Definition apply_phase_failure_cleaned_up : bool :=
+  follows "if self._workers and self._worker_comms.exception_thrown():" "  self.terminate()" imap_unordered_start &&
+  (index_of' "if self._workers and self._worker_comms.exception_thrown():" imap_unordered_start <?
+   index_of' "if not self._workers:" imap_unordered_start) &&
   match apply_async_body with
-  | a :: b :: c :: _ => String.eqb a "if not self._workers:" &&
-                        String.eqb b "  self.map_params = WorkerMapParams(func, worker_init, worker_exit, None, False, task_timeout, worker_init_timeout, worker_exit_timeout)" &&
-                        String.eqb c "  self._start_workers()"
-  | _ => false end.
+  | a :: b :: c :: _ => String.eqb a "if self._workers and (not self._map_running) and self._worker_comms.exception_thrown():" &&
+                        String.eqb b "  self.terminate()" && String.eqb c "if not self._workers:"
+  | _ => false end && has "self._workers = []" terminate_body.
 (* a worker forgets that it served an apply task before it takes the next task: the flag and the apply function are
    reset at the top of EVERY iteration of its loop (inside the while, before the chunk is looked at) *)
 Definition apply_mode_reset_per_task : bool :=
@@ -109,11 +121,24 @@ Inductive outcome := Ok | Fails | FailsPerm | CutShort.
 Inductive hop :=
 | HCall (ordered : bool) (mp : mparams) (o : outcome)
 | HSetLayout (l : layout) | HSetKeepAlive (b : bool) | HStopAndJoin | HTerminate
-| HApply (mp : mparams).                 (* apply_async: mp has no lifespan (the caller cannot give one) *)
+| HApply (mp : mparams)                  (* apply_async: mp has no lifespan (the caller cannot give one) *)
+| HApplyFails (mp : mparams).            (* ... and the apply phase fails pool-wide: worker_init / worker_exit raises or times out *)
 
 (* what a call that ran to completion used *)
 Record obs := mkObs { o_gen : nat; o_reused : bool; o_func : nat; o_ordered : bool; o_life : option nat; o_layout : layout;
                       o_tt : option nat; o_want : mparams; o_want_ordered : bool; o_want_layout : layout }.
+
+(* apply_async on state s *)
+Definition happly (s : hst) (mp : mparams) : hst :=
+      if alive s then
+        (* running workers serve the task; the pool-side copy of the parameters is left alone *)
+        (mkH (alive s) (gen s) (w_layout s)
+             (if apply_mode_reset_per_task then w_params s else mp)          (* else: the worker goes on calling the apply function *)
+             (w_ordered s) (initialized s) (keep_order s) (p_layout s) (p_keep_alive s)
+             (if apply_sets_params_only_when_starting then p_params s else Some mp) (stale_err s))
+      else
+        (mkH true (S (gen s)) (p_layout s) mp false true (keep_order s) (p_layout s) (p_keep_alive s) (Some mp)
+             (if start_workers_resets then false else stale_err s)).
 
 Definition hstep (s : hst) (o : hop) : hst * option obs :=
   match o with
@@ -129,16 +154,13 @@ Definition hstep (s : hst) (o : hop) : hst * option obs :=
   | HTerminate =>
       (mkH false (gen s) (w_layout s) (w_params s) (w_ordered s) (initialized s) (keep_order s) (p_layout s) (p_keep_alive s)
            (p_params s) (stale_err s), None)
-  | HApply mp =>
-      if alive s then
-        (* running workers serve the task; the pool-side copy of the parameters is left alone *)
-        (mkH (alive s) (gen s) (w_layout s)
-             (if apply_mode_reset_per_task then w_params s else mp)          (* else: the worker goes on calling the apply function *)
-             (w_ordered s) (initialized s) (keep_order s) (p_layout s) (p_keep_alive s)
-             (if apply_sets_params_only_when_starting then p_params s else Some mp) (stale_err s), None)
-      else
-        (mkH true (S (gen s)) (p_layout s) mp false true (keep_order s) (p_layout s) (p_keep_alive s) (Some mp)
-             (if start_workers_resets then false else stale_err s), None)
+  | HApply mp => (happly s mp, None)
+  | HApplyFails mp =>
+      (* the workers stop, the error sits in a permanent result object and the exception flag stays set; `alive` is what
+         the NEXT call or apply_async finds after its clean-up step *)
+      let s1 := happly s mp in
+      (mkH (if apply_phase_failure_cleaned_up then false else alive s1) (gen s1) (w_layout s1) (w_params s1) (w_ordered s1)
+           (initialized s1) (keep_order s1) (p_layout s1) (p_keep_alive s1) (p_params s1) true, None)
   | HCall ordered mp out =>
       let ko := if ordered && ordered_calls_set_and_clear_flag then true else keep_order s in
       (* settings changed while workers are alive: restart them *)
